@@ -25,6 +25,11 @@
    the instance's result must equal that of a fresh instance fed the same prior and stack.
    Stacks include four sensors of ONE sensor type with different R (and different dimensions);
    tunings include alpha = 1e-4 and 1e-5 (centre weight -2e8 / -2e10).
+   The same stacks (all orders, turn offsets, wrap-point moves, one-type sensors with different R and
+   positions) are replayed into the second filter family, a REAL GeneticParticleFilter with a seeded
+   population (resample() of the instance stubbed: it is random): each block of the stacked particle
+   residuals must equal the residuals of that observation alone, angular residuals lie in (-pi, pi],
+   residuals / scores / innovation / est_x / est_p equal those of the canonical stack.
    Every call into the real code is guarded: an exception on a legal call is a violation
    ("<helper>-raises:<Exc>", "ukf-update-raises:<Exc>"), also inside the worker processes.
 3. Spec mutants: the two as-coded deviations of Angles.tla must be refuted by TLC.
@@ -452,6 +457,102 @@ def _replay_group(task):
     return out
 
 
+# ---- second filter family: the particle filter's measurement side --------------------------------
+_PSCENE: list = []
+
+
+def replay_gpf_group(task):
+    try:
+        return _replay_gpf_group(task)
+    except Exception:  # noqa: BLE001
+        import traceback
+        return {"driver_error": traceback.format_exc()[-3000:]}
+
+
+def _replay_gpf_group(task):
+    """One canonical stack and the stacks of its behaviours, replayed into a REAL GeneticParticleFilter
+    (population fixed by a seed): residual blocks = per-observation residuals in the given order, angular
+    residuals in (-pi, pi], group actions leave residuals / scores / innovation / est_x / est_p unchanged
+    (Permute permutes the blocks)."""
+    _, base_stack, stacks, count_base = task
+    if not _PSCENE:
+        _PSCENE.append(A.ParticleScene())
+    sc = _PSCENE[0]
+    out = {"violations": [], "cases": [], "worst": {}, "n": 0, "n_seq": 0, "w0": 0.0, "cond": 1.0, "gpf": True}
+
+    def real(fn, arg, rp):
+        try:
+            return fn(arg)
+        except A.RealCodeRaised as ex:
+            out["violations"].append((f"gpf-update-raises:{ex.cls}",
+                                      f"the particle filter raised {ex.cls}: {ex.msg} on a legal stack of simultaneous observations",
+                                      dict(rp, traceback=ex.tb)))
+            return None
+
+    base = real(sc.gpf_update, base_stack, {"filter": "gpf", "stack": base_stack, "classes": []})
+    order = {(i, c): n for n, (i, c, _) in enumerate(base["comps"])} if base else {}
+    for st in ([base_stack] if count_base else []) + list(stacks):
+        cls = _classes(st)
+        rp = {"filter": "gpf", "stack": st, "classes": cls}
+        out["cases"].append((json.dumps(["gpf", st], sort_keys=True), bool(cls)))
+        out["n"] += 1
+        u = base if st == base_stack else real(sc.gpf_update, st, rp)
+        if u is None:
+            continue
+        try:
+            res = u["residuals"]
+            want = np.array([c in ("az", "el") for _, _, c in u["comps"]])
+            if not np.array_equal(want, u["is_angular"]):
+                out["violations"].append(("gpf-angular-flags", "is_angular does not flag exactly the azimuth/elevation components", rp))
+            ang = res[u["is_angular"]]
+            if not bool(((ang > -A.PI) & (ang <= A.PI)).all()):
+                out["violations"].append(("gpf-residual-out-of-range", "angular particle residual outside (-pi, pi]", rp))
+            # block j of the stack = residuals of observation j alone, in the given order
+            row = 0
+            for o in st:
+                blk = real(sc.gpf_single, o, rp)
+                nrow = len(A.KIND_COMPS[o["kind"]])
+                if blk is not None:
+                    e = float(np.abs(res[row:row + nrow] - blk).max())
+                    out["worst"][("gpf-block", "residuals")] = max(out["worst"].get(("gpf-block", "residuals"), 0.0), e)
+                    if not e <= 1e-12:
+                        out["violations"].append(("gpf-residual-block-not-the-observations-own",
+                                                  f"rows {row}..{row + nrow - 1} of the stacked particle residuals differ from the residuals "
+                                                  f"of sensor {o['id']}'s observation alone by {e:.3e}", dict(rp, sensor=o["id"])))
+                row += nrow
+            if st == base_stack or base is None:
+                continue
+            idx = [order[(i, c)] for i, c, _ in u["comps"]]
+            sig = np.array([A.SIGMAS[c] * A.sigma_scale(i) for i, _, c in u["comps"]])
+            tol = TOL_PERM if "permute" in cls else TOL
+            rb = base["residuals"][idx]
+            sd = np.sqrt(np.abs(np.diag(base["est_p"])))
+            scale_x = np.concatenate([np.full(3, np.linalg.norm(base["est_x"][:3])), np.full(3, np.linalg.norm(base["est_x"][3:]))])
+            errs = {
+                "residuals": float((np.abs(res - rb) / np.maximum(np.abs(rb), sig[:, None])).max()),
+                "scores": float((np.abs(u["scores"] - base["scores"]) / np.maximum(base["scores"], 1e-300)).max()),
+                "innovation": float((np.abs(u["innovation"] - base["innovation"][idx])
+                                     / np.maximum(np.abs(base["innovation"][idx]), sig)).max()),
+                "est_x": float((np.abs(u["est_x"] - base["est_x"]) / scale_x).max()),
+                "est_p": float((np.abs(u["est_p"] - base["est_p"]) / np.outer(sd, sd)).max()),
+            }
+            for q, e in errs.items():
+                k = ("gpf-" + "+".join(cls), q)
+                out["worst"][k] = max(out["worst"].get(k, 0.0), e)
+                if not e <= tol:
+                    out["violations"].append((f"gpf-{q}-changed-by-{'+'.join(cls)}",
+                                              f"particle filter: {q} differs from the canonical stack's by {e:.3e} (scaled), "
+                                              f"tolerance {tol:.1e}", dict(rp, error=e, tolerance=tol)))
+        except Exception as ex:  # noqa: BLE001  evaluation of the real filter's outputs
+            out["violations"].append((f"gpf-output-unusable:{type(ex).__name__}",
+                                      f"the outputs of the particle filter could not be evaluated: {type(ex).__name__}: {ex}", rp))
+    return out
+
+
+def _dispatch(task):
+    return replay_gpf_group(task) if task[0] == "gpf" else replay_group(task)
+
+
 # ------------------------------------------------------------------------------------------------
 def _cfg(name: str, ctx: Ctx) -> str:
     return f"{name}_{'quick' if ctx.quick else 'thorough'}.cfg"
@@ -508,7 +609,8 @@ def _run(ctx: Ctx, pool):
                 "than one member; each also as a tight cluster (1e-9 rad per offset unit) with the posed and with cancelling weights.  filter: every 'updated' state of ObsGroup.tla (tuning x kinds x seam placement x "
                 "sub-tick pattern x group word incl. all 24 orders), non-trivial = representation or order differs from "
                 "the canonical stack; distinct by (tuning, stack); sequences: one filter instance updated with hist then stack, "
-                "compared with a fresh instance (distinct by (tuning, hist, stack))")
+                "compared with a fresh instance (distinct by (tuning, hist, stack)); particle filter: the same stacks, tuning-agnostic "
+                "(quick: all bases of the exhaustive configurations, a third of the simulated ones)")
     ctx.assumptions = [
         "one tick = 15 degrees; t ticks -> (t/24) * TWOPI radians; exact value of a helper = exact rational wrap of the "
         "ACTUAL float input with the code's float period; results compared circularly at 1e-9 and against the documented range",
@@ -528,6 +630,10 @@ def _run(ctx: Ctx, pool):
         "measured noise there 9e-3)",
         "a filter instance that has already processed other stacks must reproduce a fresh instance's result for the same "
         "(prior, stack) to 1e-12 scaled (the computations are identical); successive update() calls share the prior of one predict()",
+        "particle filter: population of 10 drawn with a fixed numpy seed from N(predicted state, predicted covariance); the "
+        "genetic resample() step is replaced by a no-op on the instance (random draws, argsort of nearly tied scores), so what "
+        "is decided is calculateResidualsFromObservations, forecast() scores, and the innovation / est_x / est_p update() forms "
+        "from them; tolerances 1e-9 (1e-7 reordered), block equality 1e-12",
         "innovations of exactly half a turn are not posed at filter level (the posterior is discontinuous there)",
         "measured values are synthetic (predicted +- fixed offsets, or exactly the tick value); geometry from the real "
         "Azimuth/Elevation/Range/RangeRate functions; AzimuthSym = real Azimuth with its wrap point moved to +-pi",
@@ -591,7 +697,25 @@ def _run(ctx: Ctx, pool):
                 uniq.append(it)
         for i in range(0, max(1, len(uniq)), 24):
             tasks.append((tuning, base, uniq[i:i + 24], i == 0))
-    async_res = pool.map_async(replay_group, tasks, chunksize=1)
+    # the same behaviours for the particle filter (its measurement side does not depend on the tuning)
+    ggroups: dict = {}
+    for st in states.values():
+        base = A.canonical(st["stack"])
+        g = ggroups.setdefault(json.dumps(base, sort_keys=True), (base, {}))
+        if st["stack"] != base:
+            g[1].setdefault(json.dumps(st["stack"], sort_keys=True), st["stack"])
+    gkeys = sorted(ggroups)
+    if ctx.quick:                       # quick: the bases of the exhaustive configurations and every third other one
+        full = {json.dumps(A.canonical(st["stack"]), sort_keys=True) for st in obs.tagged("OBS") + seq.tagged("OBS")}
+        gkeys = [k for n, k in enumerate(gkeys) if k in full or n % 3 == 0]
+    n_gpf_tasks = 0
+    for k in gkeys:
+        base, sts = ggroups[k]
+        lst = list(sts.values())
+        for i in range(0, max(1, len(lst)), 24):
+            tasks.append(("gpf", base, lst[i:i + 24], i == 0))
+            n_gpf_tasks += 1
+    async_res = pool.map_async(_dispatch, tasks, chunksize=1)
     phase["obsgroup_tlc_done"] = round(time.time() - t0, 1)
 
     # ---- helper level, in this process, while the workers run the filters
@@ -637,14 +761,18 @@ def _run(ctx: Ctx, pool):
     # ---- collect the filter results
     worst: dict = {}
     n_upd = 0
+    n_gpf = 0
     n_seq = 0
     tun = {}
     for t, out in zip(tasks, async_res.get(timeout=3000)):
         if "driver_error" in out:
             raise tlc.MachineryError("filter replay worker failed (driver, not the implementation):\n" + out["driver_error"])
-        n_upd += out["n"]
-        n_seq += out["n_seq"]
-        tun[t[0]] = {"centre_weight": out["w0"], "weight_condition": out["cond"]}
+        if out.get("gpf"):
+            n_gpf += out["n"]
+        else:
+            n_upd += out["n"]
+            n_seq += out["n_seq"]
+            tun[t[0]] = {"centre_weight": out["w0"], "weight_condition": out["cond"]}
         for key, nontrivial in out["cases"]:
             ctx.case(key, nontrivial=nontrivial)
         for sig, what, rp in out["violations"]:
@@ -652,7 +780,8 @@ def _run(ctx: Ctx, pool):
         for k, e in out["worst"].items():
             kk = f"{t[0]}:{k[0]}:{k[1]}"
             worst[kk] = max(worst.get(kk, 0.0), e)
-    ctx.traces_validated += n_upd
+    ctx.traces_validated += n_upd + n_gpf
+    ctx.extra["gpf_updates"] = n_gpf
     phase["ukf_replay_done"] = round(time.time() - t0, 1)
     ctx.extra["phase_s"] = phase
     some = next(iter(states.values()))
@@ -670,6 +799,16 @@ def replay(ctx: Ctx, rp: dict):
     from .. import sched
     sched.install()
     r = rp["replay"]
+    if "stack" in r and r.get("filter") == "gpf":
+        out = replay_gpf_group(("gpf", A.canonical(r["stack"]), [r["stack"]], True))
+        if "driver_error" in out:
+            raise tlc.MachineryError(out["driver_error"])
+        for key, nontrivial in out["cases"]:
+            ctx.case(key, nontrivial=True)
+        for sig, what, rpl in out["violations"]:
+            ctx.violation(sig, what, rpl)
+        ctx.traces_validated += out["n"]
+        return
     if "stack" in r:
         out = replay_group((r["tuning"], A.canonical(r["stack"]), [(r["stack"], r.get("hist") or [])], True))
         if "driver_error" in out:
